@@ -143,7 +143,7 @@ StepOK(t, k, C, St, ev) ==
                                  m.fault = "" \/ Report(t, k, "model-fault", ev.op, {m.fault}, Kinds(m.log), <<ev.a, ev.out>>)
              ELSE ev.same \/ Report(t, k, "refused-but-changed", ev.op, {}, {}, <<ev.a, ev.out>>)
 
-NextState(St, ev) == IF ev.op # "none" /\ ev.out = "ok" THEN ev.post ELSE St
+NextState(St, ev) == IF ev.op # "none" /\ (ev.out = "ok" \/ ~ev.same) THEN ev.post ELSE St
 
 \* TLC explores both sides of a disjunction when it evaluates an action or an initial predicate; the checks below must be
 \* evaluated as plain (short-circuiting) expressions, hence Force.
